@@ -30,7 +30,10 @@ def _content(c, n):
     return refs.cat(c.bytes("content_head", 4), bytes(n - 8), c.bytes("content_tail", 4))
 
 
-OIDS = [("2.16.840.1.101.3.4.1.45", "2.16.840.1.101.3.4.1.46"), ("1.2.840.10045.3.0", "0.4.0.127.0.7.1.1.5.1.1.3"), ("2.999.0.18446744073709551615.0", "0.0")]
+OIDS = [("2.16.840.1.101.3.4.1.45", "2.16.840.1.101.3.4.1.46"), ("1.2.840.10045.3.0", "0.4.0.127.0.7.1.1.5.1.1.3"), ("2.999.0.18446744073709551615.0", "0.0"),
+        ("2.40.1", "2.47.5.6"), ("2.39", "1.39.128")]
+# optional parameters of the key-encryption AlgorithmIdentifier: absent, an explicit DER NULL, an OCTET STRING
+CEK_PARAMS = [None, b"\x05\x00", b"\x04\x01\x00"]
 
 
 def _params(tier):
@@ -44,8 +47,11 @@ def _params(tier):
     for d in out:
         d["oids"] = 0
     # other algorithm identifiers in the two AlgorithmIdentifier slots: zero arcs, arcs above 2^32, first arc 0 / 2 with a large second arc
-    for j in (1, 2):
+    for j in (1, 2, 3, 4):
         out.append(dict(n=33, ki=32, sid=SIDS[j % len(SIDS)], dom=NAMES[j % 4], forest=NAMES[(j + 1) % 4], params=True, oids=j))
+    for d in out:
+        d["cekp"] = 0
+    out += [dict(n=16, ki=32, sid=SIDS[0], dom=NAMES[1], forest=NAMES[2], params=bool(j % 2), oids=0, cekp=j) for j in (1, 2)]
     return out
 
 
@@ -53,10 +59,10 @@ def _params(tier):
          bounds="blob values: key identifier with version/flags/L0/L1/L2 symbolic in [0,2^32), symbolic root key id, key_info of sizes {0,1,32,36,127,128,255,256,520,800} (symbolic "
          "content), names from {empty, ASCII, BMP, non-BMP}; 4 SID shapes (1..15 sub-authorities, extreme values); enc_cek 40 symbolic bytes; encrypted content of listed lengths "
          "across the DER length-form boundaries (0,1,16,127,128,255,256,65535,65536 quick; more incl. 65537 thorough) with symbolic first/last octets; GCM parameters present (12 symbolic "
-         "nonce bytes) / absent; three pairs of algorithm OIDs (the AES ones; OIDs with zero arcs, a 64-bit arc, first arc 0 and 2); both layouts", outside="content lengths and key_info sizes not listed",
+         "nonce bytes) / absent; five pairs of algorithm OIDs (the AES ones; OIDs with zero arcs, a 64-bit arc, first arc 0 and 2, 2.39 / 2.40 / 2.47, 1.39); key-encryption parameters absent / explicit NULL / an OCTET STRING; both layouts", outside="content lengths and key_info sizes not listed",
          must_reach=("in-envelope: bytes equal the Windows CMS template", "trailing: bytes equal the Windows CMS template", "decode(encode(x)) == x (both layouts)",
                      "re-encoding a decoded blob gives identical bytes"))
-def blob(c, n, ki, sid, dom, forest, params, oids):
+def blob(c, n, ki, sid, dom, forest, params, oids, cekp):
     ints = {k: c.int(k, 0, U32) for k in ("version", "flags", "l0", "l1", "l2")}
     rkb = c.bytes("rkid", 16)
     rk = SymUUID(bytes_le=rkb) if c.symbolic else uuid.UUID(bytes_le=rkb)
@@ -67,12 +73,13 @@ def blob(c, n, ki, sid, dom, forest, params, oids):
     nonce = c.bytes("nonce", 12)
     par = refs.ref_gcm_parameters(nonce) if params else None
     cek_alg, content_alg = OIDS[oids]
-    x = _blob.DPAPINGBlob(kid, _blob.SIDDescriptor(sid), enc_cek, cek_alg, None, content, content_alg, par)
+    cek_par = CEK_PARAMS[cekp]
+    x = _blob.DPAPINGBlob(kid, _blob.SIDDescriptor(sid), enc_cek, cek_alg, cek_par, content, content_alg, par)
     kid_ref = refs.ref_key_identifier(ints["version"], ints["flags"], ints["l0"], ints["l1"], ints["l2"], rkb, keyinfo, dom, forest)
     b1 = refs.cat(c.call(x.pack))
-    c.check(seq_eq(b1, refs.ref_dpapi_ng_blob(kid_ref, sid, enc_cek, content, par, True, cek_alg, content_alg)), "in-envelope: bytes equal the Windows CMS template")
+    c.check(seq_eq(b1, refs.ref_dpapi_ng_blob(kid_ref, sid, enc_cek, content, par, True, cek_alg, content_alg, cek_par)), "in-envelope: bytes equal the Windows CMS template")
     b2 = refs.cat(c.call(x.pack, blob_in_envelope=False))
-    c.check(seq_eq(b2, refs.ref_dpapi_ng_blob(kid_ref, sid, enc_cek, content, par, False, cek_alg, content_alg)), "trailing: bytes equal the Windows CMS template")
+    c.check(seq_eq(b2, refs.ref_dpapi_ng_blob(kid_ref, sid, enc_cek, content, par, False, cek_alg, content_alg, cek_par)), "trailing: bytes equal the Windows CMS template")
     y1 = c.call(_blob.DPAPINGBlob.unpack, b1)
     y2 = c.call(_blob.DPAPINGBlob.unpack, b2)
     c.check(all_of([struct_eq(y1, x), struct_eq(y2, x)]), "decode(encode(x)) == x (both layouts)")
